@@ -5,11 +5,11 @@
 package c03
 
 import (
-	"strconv"
-	"strings"
 	"context"
 	"fmt"
 	"sort"
+	"strconv"
+	"strings"
 	"sync"
 	"testing"
 	"testing/synctest"
